@@ -138,8 +138,13 @@ func bencOnly(b []byte) (map[string][]cl.Lock, error) {
 
 func childMain(dir string, asLimit uint64) {
 	if asLimit > 0 {
-		lim := syscall.Rlimit{Cur: asLimit, Max: asLimit}
+		// address space: what the Go runtime reserves at start varies with its version (1 GiB is not
+		// enough for go1.26), so the tight limit is on the data segment (private writable mappings,
+		// i.e. heap that is really handed out) and the address-space limit is four times that.
+		lim := syscall.Rlimit{Cur: 4 * asLimit, Max: 4 * asLimit}
 		_ = syscall.Setrlimit(syscall.RLIMIT_AS, &lim)
+		lim = syscall.Rlimit{Cur: asLimit, Max: asLimit}
+		_ = syscall.Setrlimit(syscall.RLIMIT_DATA, &lim)
 	}
 	debug.SetGCPercent(50)
 	in := bufio.NewReaderSize(os.Stdin, 1<<20)
@@ -182,6 +187,11 @@ func childMain(dir string, asLimit uint64) {
 		line = strings.TrimRight(line, "\r\n")
 		toks := strings.Split(line, " ")
 		switch toks[0] {
+		case "P":
+			// ping, with a little allocation: the limits above leave the runtime room to work
+			buf := make([]byte, 1<<20)
+			buf[len(buf)-1] = 1
+			reply(fmt.Sprintf("pong %d", len(buf)))
 		case "R", "B":
 			if len(toks) != 2 {
 				reply("bad")
